@@ -11,12 +11,12 @@ def expected_updates(market, lk):
     inplay = lk.get("inplay")
     sts = lk.get("seconds_to_start")
     mis = lk.get("max_inplay_seconds")
-    mt = (market["market_time"] // 1000) * 1000  # marketTime is published with second resolution
     out = []
     prev_ip = None
     ip_pt = None
     for j, u in enumerate(market["updates"]):
         pt = u["pt"]
+        mt = ((u.get("mt") or market["market_time"]) // 1000) * 1000  # marketTime (second resolution) in force at this update
         if mis is not None and u["ip"] and not prev_ip:
             ip_pt = pt
         active = True
@@ -73,6 +73,10 @@ class DeliveryMonitor(Monitor):
                 market = sc["markets"][mi]
                 mid = market["id"]
                 exp_idx = expected_updates(market, lk)
+                if lk.get("seconds_to_start") and any(u.get("mt") for u in market["updates"]):
+                    pr["c14.seconds_to_start_with_rescheduled_market"] += 1
+                    if exp_idx != expected_updates(dict(market, updates=[{k: v for k, v in u.items() if k != "mt"} for u in market["updates"]]), lk):
+                        pr["c14.reschedule_changes_the_filtered_set"] += 1
                 if len(exp_idx) < len(market["updates"]):
                     self.res.nontrivial = True
                     pr["c14.filter_removed_updates"] += 1
